@@ -946,7 +946,8 @@ class Interp:
         if isinstance(v, Z):
             zo = v.t
             k = self.path.choose([V.is_list(zo), V.is_tuple(zo), V.is_dict(zo), V.is_range(zo),
-                                  z3.Not(z3.Or(V.is_list(zo), V.is_tuple(zo), V.is_dict(zo), V.is_range(zo), V.is_str(zo), V.is_set(zo)))])
+                                  z3.Not(z3.Or(V.is_list(zo), V.is_tuple(zo), V.is_dict(zo), V.is_range(zo), V.is_str(zo), V.is_set(zo))),
+                                  V.is_str(zo), V.is_set(zo)])
             if k == 0:
                 return V.Val.litems(zo)
             if k == 1:
@@ -955,6 +956,17 @@ class Interp:
                 return V.Val.dkeys(zo)
             if k == 3:
                 return V.RangeSeq(V.Val.lo(zo), V.Val.hi(zo))
+            if k == 5:
+                # a string iterates over its characters (found missing by the CPython cross-check: such inputs were
+                # silently left out of every path)
+                st = V.Val.s(zo)
+                chars = z3.Function("StrChars", V.S, V.VS)(st)
+                self.path.assume(z3.Length(chars) == z3.Length(st))
+                self.path.add_qfact(lambda j, chars=chars, st=st: z3.Implies(
+                    z3.And(j >= 0, j < z3.Length(st)), chars[j] == V.VStr(z3.SubString(st, j, 1))))
+                return chars
+            if k == 6:
+                return V.Val.selems(zo)          # in the set's (unspecified but fixed) iteration order
             raise PyRaise("TypeError", msg="object is not iterable")
         raise Unsupported(f"iter_seq {v!r}")
 
